@@ -383,6 +383,12 @@ func run(prop, tier string) int {
 				broken = fmt.Sprintf("phase %d (apalache %s): %v\n%s", i, ph.Spec, err, tail(out, 40))
 			}
 			exhaustive = exhaustive && true
+		case "tlaps":
+			out, n, err := runTlaps(work, ph)
+			if err != nil {
+				broken = fmt.Sprintf("phase %d (tlaps %s): %v\n%s", i, ph.Spec, err, tail(out, 40))
+			}
+			info["obligations_proved"] = n
 		default:
 			broken = "unknown phase kind " + ph.Kind
 		}
@@ -857,6 +863,35 @@ func runApalache(work string, ph Phase) (string, error) {
 		return buf.String(), errors.New("apalache did not report NoError")
 	}
 	return buf.String(), nil
+}
+
+// runTlaps checks a proof module with the TLA+ proof system; every obligation must be proved.
+func runTlaps(work string, ph Phase) (string, int, error) {
+	timeout := time.Duration(ph.TimeoutS) * time.Second
+	if timeout == 0 {
+		timeout = 10 * time.Minute
+	}
+	cmd := exec.Command("tlapm", "--threads", strconv.Itoa(runtime.NumCPU()), "--cleanfp", ph.Spec)
+	cmd.Dir = work
+	cmd.Env = append(os.Environ(), "TMPDIR="+filepath.Join(work, "tmp"))
+	cmd.SysProcAttr = &syscall.SysProcAttr{Setpgid: true}
+	var buf bytes.Buffer
+	cmd.Stdout = &buf
+	cmd.Stderr = &buf
+	if err := cmd.Start(); err != nil {
+		return "", 0, err
+	}
+	timer := time.AfterFunc(timeout, func() { syscall.Kill(-cmd.Process.Pid, syscall.SIGKILL) })
+	err := cmd.Wait()
+	if !timer.Stop() {
+		return buf.String(), 0, fmt.Errorf("tlapm timed out")
+	}
+	m := regexp.MustCompile(`All (\d+) obligations? proved`).FindStringSubmatch(buf.String())
+	if err != nil || m == nil {
+		return buf.String(), 0, fmt.Errorf("tlapm did not prove every obligation (%v)", err)
+	}
+	n, _ := strconv.Atoi(m[1])
+	return buf.String(), n, nil
 }
 
 func runGo(work, prop, tier string, idx int, ph Phase) (HResult, string, error) {
